@@ -50,6 +50,18 @@ def _safe_markup(text, template="{}"):  # type: (str, str) -> str
     return text
 
 
+def _write_line(io, line):  # type: (IO, str) -> None
+    """
+    Writes a line of the report. What was written to the I/O before may have left
+    style tags open: the formatter of the I/O then rejects a closing tag that is
+    fine by itself, and the line is written without its tags.
+    """
+    try:
+        io.write_line(line)
+    except ValueError:
+        io.write_line(_strip_tags(line))
+
+
 class Highlighter(object):
 
     TOKEN_DEFAULT = "token_default"
@@ -306,10 +318,11 @@ class ExceptionTrace(object):
 
     def render(self, io, simple=False):  # type: (IO, bool) -> None
         if simple:
-            io.write_line(
+            _write_line(
+                io,
                 "<error>{}</error>".format(
                     _safe_markup(str(self._exception), "<error>{}</error>")
-                )
+                ),
             )
             return
 
@@ -348,9 +361,14 @@ class ExceptionTrace(object):
             io, "<error>{}</error>".format(inspector.exception_name), True
         )
         io.write_line("")
-        exception_message = io.remove_format(
-            _safe_markup(inspector.exception_message)
-        ).replace("\n", "\n  ")
+        exception_message = _safe_markup(inspector.exception_message)
+        try:
+            exception_message = io.remove_format(exception_message)
+        except ValueError:
+            # A closing tag that does not match what earlier output left open
+            exception_message = _strip_tags(exception_message)
+
+        exception_message = exception_message.replace("\n", "\n  ")
         self._render_line(io, "<b>{}</b>".format(exception_message))
 
         current_frame = inspector.frames[-1]
@@ -497,7 +515,7 @@ class ExceptionTrace(object):
         if new_line:
             io.write_line("")
 
-        io.write_line("{}{}".format(indent * " ", _safe_markup(line)))
+        _write_line(io, "{}{}".format(indent * " ", _safe_markup(line)))
 
     def _get_relative_file_path(self, filepath):
         cwd = os.getcwd()
